@@ -351,6 +351,18 @@ class C09(CheckBase):
                 'opcode_salt': None, 'scribble': False, 'focus': [k], 'pair_sweep': True,
                 'granularity': 'instr' if variant & 2 else 'line'}
 
+    @staticmethod
+    def _bad_argument(rng, args, which=None):
+        """the same call with ONE argument of a wrong type (None / str / list): a caller's mistake that makes
+        the library raise somewhere inside; a failed call is still part of the history"""
+        if not args:
+            return list(args), False
+        idx = [i for i, a in enumerate(args) if isinstance(a, (int, float)) and not isinstance(a, bool)] or list(range(len(args)))
+        i = idx[(which if which is not None else rng.randrange(len(idx))) % len(idx)]
+        out = list(args)
+        out[i] = rng.choice([None, 'n/a', None])      # immutable wrong-typed values only: what a function does to an argument of a type it does not accept is outside the property
+        return out, True
+
     def _cancel_trace(self, rng, kind_index, frac, kind_of_fault):
         """Systematic interruption sweep: a call of every op kind is cancelled (or hit by MemoryError) at the
         line lying `frac` of the way through it; then the same call is made again un-faulted, followed by the
@@ -358,10 +370,19 @@ class C09(CheckBase):
         a flag, a memo, an altered argument) shows in the barrier / snapshots / O2 or in the later results."""
         k = self.kinds[kind_index % len(self.kinds)]
         a1 = ops_mod.OPS[k][1](rng, self.ctx)
-        ops = [{'id': 0, 'kind': k, 'args': a1, 'thread': 0}, {'id': 1, 'kind': k, 'args': a1, 'thread': 0, 'repeat_of': 0},
+        first = a1
+        faults = [{'kind': kind_of_fault, 'op': 0, 'frac': round(frac, 5)}]
+        if kind_of_fault == 'badarg':
+            first, _ = self._bad_argument(rng, a1, which=int(frac * 48))
+            faults = []
+        ops = [{'id': 0, 'kind': k, 'args': first, 'thread': 0}, {'id': 1, 'kind': k, 'args': a1, 'thread': 0},
                {'id': 2, 'kind': k, 'args': ops_mod.OPS[k][1](rng, self.ctx), 'thread': 0}]
+        if kind_of_fault == 'badarg':
+            ops += [{'id': 3 + n, 'kind': k, 'args': ops_mod.OPS[k][1](rng, self.ctx), 'thread': 0} for n in range(5)]
+        else:
+            ops[1]['repeat_of'] = 0
         return {'property': 'C09', 'threads': 1, 'ops': ops, 'shared': [],
-                'faults': [{'kind': kind_of_fault, 'op': 0, 'frac': round(frac, 5)}],
+                'faults': faults,
                 'sched': {'mode': 'rr'}, 'switches': [], 'opcode_salt': None, 'scribble': False, 'focus': [k],
                 'pair_sweep': True, 'granularity': 'line'}
 
@@ -372,7 +393,7 @@ class C09(CheckBase):
         if i < 2 * K:
             return self._preempt_trace(rng, i - K, rng.random(), (i - K) % 4)
         if i < 3 * K:
-            return self._cancel_trace(rng, i - 2 * K, rng.random(), 'cancel' if i % 3 else 'oom')
+            return self._cancel_trace(rng, i - 2 * K, rng.random(), ['cancel', 'oom', 'badarg', 'cancel'][i % 4])
         if tier == 'thorough' and i >= self.N_RANDOM_THOROUGH:
             j = i - self.N_RANDOM_THOROUGH
             if j < 2 * self.n_pairs():
@@ -386,7 +407,8 @@ class C09(CheckBase):
                 return self._preempt_trace(rng, rest // 4, (point + 0.5) / self.N_PREEMPT_POINTS, rest % 4)
             j -= 4 * self.N_PREEMPT_POINTS * K
             point, rest = j % self.N_PREEMPT_POINTS, j // self.N_PREEMPT_POINTS
-            return self._cancel_trace(rng, rest, (point + 0.5) / self.N_PREEMPT_POINTS, 'cancel' if point % 4 else 'oom')
+            return self._cancel_trace(rng, rest, (point + 0.5) / self.N_PREEMPT_POINTS,
+                                      'badarg' if point < 8 else ('cancel' if point % 4 else 'oom'))
         cls = rng.randrange(10)
         if cls < 2:
             T = 1
@@ -433,6 +455,8 @@ class C09(CheckBase):
                 kind = rng.choice(focus) if focus else rng.choices(self.kinds, w)[0]
                 args = ops_mod.OPS[kind][1](rng, self.ctx)
                 o = {'id': j, 'kind': kind, 'args': args, 'thread': rng.randrange(T)}
+                if rng.random() < 0.03:
+                    o['args'], o['bad_argument'] = self._bad_argument(rng, args)
             ops.append(o)
         # share some mutable arguments between two ops (legal for pure functions)
         if len(ops) >= 2:
@@ -781,6 +805,8 @@ class C09(CheckBase):
             bump('probe:same_kind_in_flight_on_two_threads')
         if any('near_repeat_of' in o for o in ops):
             bump('probe:near_repeat_op')
+        if any(o.get('bad_argument') for o in ops) or (trace.get('pair_sweep') and not trace.get('faults') and T == 1 and len(ops) >= 8):
+            bump('probe:history_contains_call_with_wrong_typed_argument')
         if trace.get('pair_sweep'):
             bump('pair_sweep_runs')
         elif trace.get('focus'):
